@@ -8,7 +8,7 @@
 //! cutoff follow the usage protocol of `chain/src/txhashset/txhashset.rs`.
 use croaring::Bitmap;
 use grin_core::core::hash::{DefaultHashable, Hash, Hashed, ZERO_HASH};
-use grin_core::core::pmmr::{self, ReadablePMMR, VecBackend, PMMR};
+use grin_core::core::pmmr::{self, Backend, ReadablePMMR, VecBackend, PMMR};
 use grin_core::ser::{self, PMMRIndexHashable, PMMRable, ProtocolVersion, Readable, Reader, Writeable, Writer};
 use grin_store::pmmr::PMMRBackend;
 use grin_store::prune_list::PruneList;
@@ -44,11 +44,48 @@ impl PMMRable for VarElem {
 	}
 }
 
+/// Fixed-size element of 683 bytes (the record size of the rangeproof MMR).
+#[derive(Clone, Debug, PartialEq, Eq)]
+pub struct RpElem(pub Vec<u8>);
+impl DefaultHashable for RpElem {}
+impl Writeable for RpElem {
+	fn write<W: Writer>(&self, writer: &mut W) -> Result<(), ser::Error> {
+		writer.write_fixed_bytes(&self.0)
+	}
+}
+impl Readable for RpElem {
+	fn read<R: Reader>(reader: &mut R) -> Result<RpElem, ser::Error> {
+		Ok(RpElem(reader.read_fixed_bytes(683)?))
+	}
+}
+impl PMMRable for RpElem {
+	type E = Self;
+	fn as_elmt(&self) -> Self::E {
+		self.clone()
+	}
+	fn elmt_size() -> Option<u16> {
+		Some(683)
+	}
+}
+
 /// What the harness needs from an element kind.
 trait Kind: PMMRable<E = Self> + Clone + PartialEq + std::fmt::Debug {
 	const NAME: &'static str;
 	fn gen(rng: &mut Rng) -> Self;
+	/// elements of the bulk batches (as large as the kind allows)
+	fn gen_big(rng: &mut Rng) -> Self {
+		Self::gen(rng)
+	}
 	fn ser(&self) -> Vec<u8>;
+}
+impl Kind for RpElem {
+	const NAME: &'static str = "rp";
+	fn gen(rng: &mut Rng) -> Self {
+		RpElem(rng.bytes(683))
+	}
+	fn ser(&self) -> Vec<u8> {
+		self.0.clone()
+	}
 }
 impl Kind for Elem {
 	const NAME: &'static str = "fixed";
@@ -63,6 +100,10 @@ impl Kind for VarElem {
 	const NAME: &'static str = "var";
 	fn gen(rng: &mut Rng) -> Self {
 		let n = if rng.chance(1, 10) { 0 } else { rng.range(1, 40) as usize };
+		VarElem(rng.bytes(n))
+	}
+	fn gen_big(rng: &mut Rng) -> Self {
+		let n = rng.range(120, 255) as usize;
 		VarElem(rng.bytes(n))
 	}
 	fn ser(&self) -> Vec<u8> {
@@ -108,7 +149,7 @@ struct Boundary {
 
 /// The chain-side bookkeeping of one history (what the chain db knows).
 #[derive(Clone)]
-struct Book<T> {
+struct Book<T: PMMRable> {
 	size: u64,
 	elems: Vec<T>,
 	unspent: BTreeSet<u64>,
@@ -116,6 +157,8 @@ struct Book<T> {
 	chain: Vec<Boundary>,
 	/// index into `chain` of the lowest boundary a rewind may still target (last compaction cutoff)
 	min_idx: usize,
+	/// the never-pruned reference MMR: a `VecBackend` fed the same appends and rewinds
+	refb: VecBackend<T>,
 }
 
 #[derive(Default)]
@@ -155,6 +198,27 @@ struct Stats {
 	rewind_only_commits: u64,
 	/// committed units by kind in the random histories
 	unit_kinds_random: BTreeMap<String, u64>,
+	/// evaluations of the deep oracle (every unspent leaf: proof, ancestors, prune-list cover)
+	deep_evals: u64,
+	deep_proofs: u64,
+	deep_protected: u64,
+	/// cutoff family
+	cutoff_histories: u64,
+	cutoff_boundary_on_leaf: u64,
+	cutoff_boundary_on_parent: u64,
+	/// compactions whose cutoff boundary ends on a leaf that was spent inside the horizon
+	/// (the leaf at the cutoff position itself is in `rewind_rm_pos`)
+	compact_cutoff_leaf_protected: u64,
+	/// rewinds that made a leaf unspent again which a compaction had to protect
+	rewinds_unspend_protected: u64,
+	/// leaves spent whose sibling had been protected by a compaction and re-added by a rewind
+	sibling_of_readded_spent: u64,
+	/// bulk batches
+	bulk_batches: u64,
+	bulk_discarded: u64,
+	bulk_max_hash_buf: u64,
+	bulk_max_data_buf: u64,
+	bulk_file_compares: u64,
 }
 impl Stats {
 	fn op(&mut self, k: &str) {
@@ -177,6 +241,13 @@ struct Run<'a, T: Kind> {
 	compacted_once: bool,
 	/// the last compaction emptied the data file and the backend has not been reopened since
 	empty_data_pending: bool,
+	/// the operations of the current history (printed with every oracle failure)
+	hist: Vec<String>,
+	fails_in_history: u64,
+	/// leaves that were in `rewind_rm_pos` of some compaction of this history
+	protected_once: BTreeSet<u64>,
+	/// … of those, the ones a later rewind made unspent again
+	readded_protected: BTreeSet<u64>,
 }
 
 impl<'a, T: Kind> Run<'a, T> {
@@ -202,22 +273,64 @@ impl<'a, T: Kind> Run<'a, T> {
 				unspent: BTreeSet::new(),
 			}],
 			min_idx: 0,
+			refb: VecBackend::new(),
 		};
 		self.compacted_once = false;
 		self.empty_data_pending = false;
+		self.hist.clear();
+		self.fails_in_history = 0;
+		self.protected_once.clear();
+		self.readded_protected.clear();
 		self.st.histories += 1;
 		self.out.line(&format!("store new {}", T::NAME), "ok");
 	}
 
 	fn oracle_fail(&mut self, msg: String) {
 		self.st.oracle_fails += 1;
-		self.out.raw(&format!("#ORACLE-FAIL C08 [{}] {}", T::NAME, msg));
+		self.fails_in_history += 1;
+		if self.fails_in_history > 8 {
+			// the history is printed with the first failures; do not flood the output
+			return;
+		}
+		self.out.raw(&format!(
+			"#ORACLE-FAIL C08 [{}] {} | history: {}",
+			T::NAME,
+			msg,
+			self.hist_text()
+		));
+	}
+
+	/// the operations of the current history, runs of pushes collapsed
+	fn hist_text(&self) -> String {
+		let mut parts: Vec<String> = vec![];
+		let mut pushes = 0u64;
+		for h in self.hist.iter() {
+			if h == "push" {
+				pushes += 1;
+				continue;
+			}
+			if pushes > 0 {
+				parts.push(format!("push*{}", pushes));
+				pushes = 0;
+			}
+			parts.push(h.clone());
+		}
+		if pushes > 0 {
+			parts.push(format!("push*{}", pushes));
+		}
+		parts.join("; ")
 	}
 
 	// ---- mutating ops -------------------------------------------------------------------
 
 	fn push(&mut self) {
 		let e = T::gen(self.rng);
+		self.push_elem(e, true);
+	}
+
+	/// `check` = evaluate the reference oracle right after the push (the bulk batches do that at
+	/// chosen points only: the oracle is linear in the size of the MMR)
+	fn push_elem(&mut self, e: T, check: bool) {
 		let size = self.bk.size;
 		let res = {
 			let be = self.backend.as_mut().unwrap();
@@ -231,6 +344,14 @@ impl<'a, T: Kind> Run<'a, T> {
 				self.bk.unspent.insert(size);
 				self.bk.elems.push(e.clone());
 				self.bk.size = sz;
+				// the reference gets the same append
+				let rsz = {
+					let mut p = PMMR::at(&mut self.bk.refb, size);
+					p.push(&e).map(|_| p.size)
+				};
+				if rsz != Ok(sz) {
+					self.oracle_fail(format!("push at size {} gave size {} but the unpruned reference {:?}", size, sz, rsz));
+				}
 				if self.empty_data_pending {
 					self.empty_data_pending = false;
 					self.st.empty_then_append += 1;
@@ -241,8 +362,11 @@ impl<'a, T: Kind> Run<'a, T> {
 			Err(_) => "panic".to_string(),
 		};
 		self.st.op("push");
+		self.hist.push("push".into());
 		self.out.line(&format!("store push {}", hex(&e.ser())), &rhs);
-		self.check(false);
+		if check {
+			self.check(false);
+		}
 	}
 
 	fn prune(&mut self, pos0: u64) {
@@ -263,6 +387,14 @@ impl<'a, T: Kind> Run<'a, T> {
 			Err(_) => "panic".to_string(),
 		};
 		self.st.op("prune");
+		self.hist.push(format!("prune {}", pos0));
+		if rhs == "true" && pmmr::is_leaf(pos0) {
+			let i = pmmr::n_leaves(pos0 + 1) - 1;
+			let sib = pmmr::insertion_to_pmmr_index(i ^ 1);
+			if self.readded_protected.contains(&sib) && self.bk.unspent.contains(&sib) {
+				self.st.sibling_of_readded_spent += 1;
+			}
+		}
 		self.out.line(&format!("store prune {}", pos0), &rhs);
 		self.check(false);
 	}
@@ -294,6 +426,14 @@ impl<'a, T: Kind> Run<'a, T> {
 		self.out
 			.line(&format!("store rewind {} {}", target.size, bm_list(&bitmap)), &rhs);
 		self.st.op("rewind");
+		self.hist.push(format!("rewind {} {}", target.size, bm_list(&bitmap)));
+		for p in rm.iter() {
+			if self.protected_once.contains(p) && self.readded_protected.insert(*p) {
+				self.st.rewinds_unspend_protected += 1;
+			}
+		}
+		// the reference gets the same rewind
+		let _ = self.bk.refb.rewind(target.size, &bitmap);
 		if target.size == self.bk.size {
 			self.st.rewinds_same_size += 1;
 			if !rm.is_empty() {
@@ -307,6 +447,7 @@ impl<'a, T: Kind> Run<'a, T> {
 		self.bk.chain.truncate(j + 1);
 		// the oracle right after the rewind: the re-added leaves are unspent again
 		self.check(false);
+		self.deep_oracle("rewind", false);
 	}
 
 	fn sync(&mut self) {
@@ -321,6 +462,7 @@ impl<'a, T: Kind> Run<'a, T> {
 		};
 		self.out.line("store sync", rhs);
 		self.st.op("sync");
+		self.hist.push("sync".into());
 		self.st.commits += 1;
 		// every commit is a boundary of its own, also when the size did not change (a unit that
 		// only removes leaves, or an empty unit): a later rewind can target the boundary before it
@@ -330,6 +472,7 @@ impl<'a, T: Kind> Run<'a, T> {
 		};
 		self.bk.chain.push(b);
 		self.check(true);
+		self.deep_oracle("sync", true);
 	}
 
 	fn discard(&mut self, saved: Book<T>) {
@@ -337,15 +480,31 @@ impl<'a, T: Kind> Run<'a, T> {
 		self.bk = saved;
 		self.out.line("store discard", "ok");
 		self.st.op("discard");
+		self.hist.push("discard".into());
 		self.st.discards += 1;
 		self.check(true);
+		self.deep_oracle("discard", true);
 	}
 
 	fn compact(&mut self) {
 		let n = self.bk.chain.len();
 		// cutoff boundary: anywhere between the last cutoff and the head, biased to recent
 		let lo = self.bk.min_idx;
-		let c = if self.rng.chance(1, 2) {
+		// boundaries whose last leaf was unspent there and has been spent since (inside the horizon
+		// if that boundary is the cutoff)
+		let cands: Vec<usize> = (lo..n.saturating_sub(1))
+			.filter(|&c| {
+				let b = &self.bk.chain[c];
+				let nl = pmmr::n_leaves(b.size);
+				nl > 0 && {
+					let p = pmmr::insertion_to_pmmr_index(nl - 1);
+					b.unspent.contains(&p) && !self.bk.unspent.contains(&p)
+				}
+			})
+			.collect();
+		let c = if !cands.is_empty() && self.rng.chance(1, 3) {
+			*self.rng.pick(&cands)
+		} else if self.rng.chance(1, 2) {
 			self.rng.range(lo as u64, (n - 1) as u64) as usize
 		} else {
 			let back = self.rng.range(0, 3) as usize;
@@ -381,6 +540,11 @@ impl<'a, T: Kind> Run<'a, T> {
 		self.out
 			.line(&format!("store compact {} {}", cutoff, bm_list(&bitmap)), rhs);
 		self.st.op("compact");
+		self.hist.push(format!("compact {} {}", cutoff, bm_list(&bitmap)));
+		self.protected_once.extend(rm.iter());
+		if cutoff > 0 && pmmr::is_leaf(cutoff - 1) && rm.contains(&(cutoff - 1)) {
+			self.st.compact_cutoff_leaf_protected += 1;
+		}
 		self.st.compactions += 1;
 		let after = (self.be().hash_size(), self.be().data_size());
 		if after != before {
@@ -399,6 +563,7 @@ impl<'a, T: Kind> Run<'a, T> {
 			self.st.prune_list_sizes.push(pl.len());
 		}
 		self.check(true);
+		self.deep_oracle("compact", true);
 	}
 
 	fn reopen(&mut self) {
@@ -407,8 +572,10 @@ impl<'a, T: Kind> Run<'a, T> {
 		self.empty_data_pending = false;
 		self.out.line("store reopen", "ok");
 		self.st.op("reopen");
+		self.hist.push("reopen".into());
 		self.st.reopens += 1;
 		self.check(true);
+		self.deep_oracle("reopen", true);
 	}
 
 	// ---- observations -------------------------------------------------------------------
@@ -427,6 +594,128 @@ impl<'a, T: Kind> Run<'a, T> {
 	/// the reference oracle alone (nothing printed): evaluated after every step
 	fn check(&mut self, committed: bool) {
 		self.observe_inner(committed, false, false);
+	}
+
+	/// every leaf a permitted rewind can still make unspent: the leaves unspent now or at any
+	/// committed boundary from the last compaction cutoff on (harness bookkeeping, not the store's)
+	fn protected_leaves(&self) -> BTreeSet<u64> {
+		let mut s = self.bk.unspent.clone();
+		for b in self.bk.chain[self.bk.min_idx.min(self.bk.chain.len())..].iter() {
+			s.extend(b.unspent.iter());
+		}
+		s
+	}
+
+	/// the protected leaves that lie in a pruned subtree according to the prune list on disk
+	/// (`is_pruned`: the leaf is a pruned root itself or lies below one)
+	fn covered_by_prune_list(&self, protected: &BTreeSet<u64>) -> Vec<u64> {
+		match PruneList::open(self.dir.join("pmmr_prun.bin")) {
+			Ok(pl) => protected.iter().cloned().filter(|p| pl.is_pruned(*p)).collect(),
+			Err(_) => vec![],
+		}
+	}
+
+	/// The oracle the property fixes, evaluated on the implementation after every compaction,
+	/// rewind, reopen, commit and discard, for EVERY leaf that is unspent according to the harness'
+	/// own bookkeeping of the history: `get_data` = the element appended there, `get_hash` = its
+	/// hash, a Merkle proof can be built and verifies against the root of the never-pruned
+	/// reference MMR (a `VecBackend` fed the same appends and rewinds), every ancestor and every
+	/// Merkle-path sibling reads the reference hash from the hash file, the root is the reference
+	/// root; and no prune-list entry covers a leaf that is unspent or that a permitted rewind can
+	/// make unspent again (the prune list is read from its file: `synced` states only).
+	fn deep_oracle(&mut self, after: &str, synced: bool) {
+		self.st.deep_evals += 1;
+		let size = self.bk.size;
+		let unspent: Vec<u64> = self.bk.unspent.iter().cloned().collect();
+		let mut fails: Vec<String> = vec![];
+		{
+			let elems = &self.bk.elems;
+			let refh = &self.bk.refb.hashes;
+			if refh.len() as u64 != size {
+				fails.push(format!("reference MMR has {} hashes, the history says size {}", refh.len(), size));
+			}
+			let ref_root = {
+				let mut rb = self.bk.refb.clone();
+				let r = PMMR::at(&mut rb, size).root();
+				r
+			};
+			let be = self.backend.as_mut().unwrap();
+			let pmmr: PMMR<'_, T, _> = PMMR::at(be, size);
+			let root = pmmr.root();
+			if root != ref_root || root.is_err() && size > 0 {
+				fails.push(format!(
+					"after {}: root {} differs from the root {} of the never-pruned reference (size {})",
+					after,
+					root_str(root.clone()),
+					root_str(ref_root.clone()),
+					size
+				));
+			}
+			for &p in unspent.iter() {
+				if p >= size {
+					fails.push(format!("after {}: unspent leaf {} beyond size {}", after, p, size));
+					continue;
+				}
+				let i = (pmmr::n_leaves(p + 1) - 1) as usize;
+				let d = pmmr.get_data(p);
+				if d.as_ref() != Some(&elems[i]) {
+					fails.push(format!("after {}: get_data({}) of an unspent leaf = {:?}, appended {:?}", after, p, d.map(|x| hex(&x.ser())), hex(&elems[i].ser())));
+				}
+				let h = pmmr.get_hash(p);
+				if h != Some(elems[i].hash_with_index(p)) || h != refh.get(p as usize).cloned() {
+					fails.push(format!("after {}: get_hash({}) of an unspent leaf = {}", after, p, opt_hash(h)));
+				}
+				// the leaf itself and every ancestor / path sibling must still be in the hash file
+				if pmmr.get_from_file(p) != refh.get(p as usize).cloned() {
+					fails.push(format!("after {}: get_from_file({}) of an unspent leaf = {} (compacted away?)", after, p, opt_hash(pmmr.get_from_file(p))));
+				}
+				for (parent, sibling) in pmmr::family_branch(p, size) {
+					for q in [parent, sibling] {
+						let got = pmmr.get_from_file(q);
+						if got.is_none() || got != refh.get(q as usize).cloned() {
+							fails.push(format!(
+								"after {}: position {} ({} of the unspent leaf {}) reads {} from the hash file, reference {}",
+								after,
+								q,
+								if q == parent { "ancestor" } else { "path sibling" },
+								p,
+								opt_hash(got),
+								opt_hash(refh.get(q as usize).cloned())
+							));
+						}
+					}
+				}
+				self.st.deep_proofs += 1;
+				match pmmr.merkle_proof(p) {
+					Ok(pr) => {
+						if let Ok(r) = &ref_root {
+							if pr.verify(*r, &elems[i], p).is_err() {
+								fails.push(format!("after {}: merkle_proof({}) does not verify against the reference root (size {})", after, p, size));
+							}
+						}
+					}
+					Err(_) => fails.push(format!("after {}: merkle_proof({}) of an unspent leaf cannot be built (size {})", after, p, size)),
+				}
+			}
+		}
+		if synced {
+			let prot = self.protected_leaves();
+			self.st.deep_protected += prot.len() as u64;
+			let cov = self.covered_by_prune_list(&prot);
+			if !cov.is_empty() {
+				fails.push(format!(
+					"after {}: the prune list covers the leaves {:?}, which are unspent or can be made unspent by a rewind inside the horizon (unspent now: {:?})",
+					after,
+					cov,
+					cov.iter().filter(|p| self.bk.unspent.contains(p)).collect::<Vec<_>>()
+				));
+			}
+		}
+		// one failure per kind is enough for a history
+		fails.truncate(4);
+		for f in fails {
+			self.oracle_fail(f);
+		}
 	}
 
 	/// observables; `committed` = the backend is in a synced state
@@ -622,6 +911,14 @@ impl<'a, T: Kind> Run<'a, T> {
 		let pl = PruneList::open(self.dir.join("pmmr_prun.bin")).unwrap();
 		let tag = self.out.lines;
 		self.out.line(&format!("store prunelist @{}", tag), &pl_str(&pl));
+		// which of the leaves a permitted rewind can still bring back lie in a pruned subtree: none
+		let prot = self.protected_leaves();
+		let cov = self.covered_by_prune_list(&prot);
+		let tag = self.out.lines;
+		self.out.line(
+			&format!("store covered {} @{}", nat_list(&prot.iter().cloned().collect::<Vec<_>>()), tag),
+			&nat_list(&cov),
+		);
 	}
 
 	// ---- spend patterns -----------------------------------------------------------------
@@ -634,7 +931,7 @@ impl<'a, T: Kind> Run<'a, T> {
 		}
 		let leaf = |i: u64| pmmr::insertion_to_pmmr_index(i);
 		let mut v: Vec<u64> = vec![];
-		let kind = if !self.readded.is_empty() && self.rng.chance(1, 2) { 5 } else { self.rng.below(9) };
+		let kind = if !self.readded.is_empty() && self.rng.chance(1, 2) { 5 } else { self.rng.below(11) };
 		match kind {
 			0 => {
 				// sibling pair
@@ -705,6 +1002,30 @@ impl<'a, T: Kind> Run<'a, T> {
 					}
 				}
 				self.st.pat(if self.readded.is_empty() { "readded(none)" } else { "readded" });
+			}
+			9 => {
+				// exactly the last leaf of an earlier boundary a rewind can still reach
+				let lo = self.bk.min_idx;
+				let n = self.bk.chain.len();
+				if n > 0 {
+					let k = self.rng.range(lo as u64, (n - 1) as u64) as usize;
+					let nl = pmmr::n_leaves(self.bk.chain[k].size);
+					if nl > 0 {
+						v.push(leaf(nl - 1));
+					}
+				}
+				self.st.pat("boundary-last-leaf");
+			}
+			10 => {
+				// the siblings of leaves a compaction protected and a rewind made unspent again
+				let r: Vec<u64> = self.readded_protected.iter().cloned().collect();
+				for p in r {
+					if self.bk.unspent.contains(&p) && self.rng.chance(2, 3) {
+						let i = pmmr::n_leaves(p + 1) - 1;
+						v.push(leaf(i ^ 1));
+					}
+				}
+				self.st.pat(if self.readded_protected.is_empty() { "sibling-of-readded-protected(none)" } else { "sibling-of-readded-protected" });
 			}
 			6 => {
 				// a contiguous run
@@ -1068,6 +1389,342 @@ impl<'a, T: Kind> Run<'a, T> {
 		}
 	}
 
+
+	// ---- the cutoff family: the leaf at the compaction cutoff, spent inside the horizon -----
+
+	/// rewind to committed boundary `j`, in one step or block by block (`rewind_single_block`)
+	fn rewind_unit_start(&mut self, j: usize, stepwise: bool) {
+		let n = self.bk.chain.len();
+		self.readded.clear();
+		self.st.rewinds += 1;
+		self.st.rewind_depth_sum += (n - 1 - j) as u64;
+		if self.compacted_once {
+			self.st.rewinds_over_compacted += 1;
+		}
+		if stepwise && j + 2 < n {
+			self.st.rewinds_stepwise += 1;
+			let mut k = n - 1;
+			while k > j {
+				k -= 1;
+				self.rewind_to(k);
+			}
+		} else {
+			self.rewind_to(j);
+		}
+	}
+
+	/// One history of the family.  `l` = leaf count of the boundary B1 that becomes the compaction
+	/// cutoff (odd: the boundary ends on a leaf, i.e. the 1-based cutoff position IS that leaf;
+	/// even: it ends on a parent).  A later block spends exactly the last leaf of B1 (`mode` 0:
+	/// the next block, together with appends; 1: the block after next, a removal-only unit when
+	/// `l` is even; 2: the next block, which also creates AND spends the first leaf after the
+	/// boundary).  `sib_first`: the sibling of that leaf was spent before the boundary.  Then
+	/// check_compact with B1 as cutoff while the spend is inside the horizon (passed in
+	/// `rewind_rm_pos`), a rewind to the boundary before the spend (the leaf is unspent again),
+	/// its sibling is spent, more blocks, check_compact at the head (nothing protected any more),
+	/// reopen; finally the leaf is spent for good, compaction, reopen.
+	fn cutoff_history(&mut self, l: u64, mode: u64, sib_first: bool, stepwise: bool) {
+		let leaf = |i: u64| pmmr::insertion_to_pmmr_index(i);
+		self.fresh();
+		self.st.cutoff_histories += 1;
+		if l % 2 == 1 {
+			self.st.cutoff_boundary_on_leaf += 1;
+		} else {
+			self.st.cutoff_boundary_on_parent += 1;
+		}
+		// B1: `l` leaves, in two blocks when possible (so that an earlier boundary exists)
+		let first = (l + 1) / 2;
+		self.plain_unit(first, &[], true);
+		if first < l {
+			let sp: Vec<u64> = if sib_first && l >= 2 { vec![leaf((l - 1) ^ 1)] } else { vec![] };
+			self.plain_unit(l - first, &sp, true);
+		}
+		let b1 = self.bk.chain.len() - 1;
+		assert_eq!(self.bk.chain[b1].size, leaf(l));
+		let last = leaf(l - 1);
+		match mode {
+			0 => self.plain_unit(1 + l % 3, &[last], true),
+			1 => {
+				self.plain_unit(1 + l % 3, &[], true);
+				self.plain_unit(l % 2, &[last], true);
+			}
+			_ => {
+				// creates leaf(l) (0-based position = the cutoff size) and spends it at once
+				self.plain_unit(2, &[leaf(l), last], true);
+			}
+		}
+		let b_spend = self.bk.chain.len() - 1;
+		self.plain_unit(1 + (l / 2) % 2, &[], true);
+		// first compaction: cutoff = B1, the spend of its last leaf is inside the horizon
+		self.compact_at(b1);
+		self.observe(true, true);
+		self.observe_prune_file();
+		if l % 4 == 3 {
+			self.reopen();
+			self.observe(true, true);
+		}
+		// a fork: rewind to the boundary before the spend - the leaf is unspent again
+		let saved = self.bk.clone();
+		self.rewind_unit_start(b_spend - 1, stepwise);
+		self.observe(false, true);
+		if mode == 2 && l % 5 == 0 {
+			// the rewind alone, discarded: back on the old fork; then the same rewind again
+			self.discard(saved);
+			self.observe(true, true);
+			self.rewind_unit_start(b_spend - 1, stepwise);
+		}
+		// spend the sibling of the re-added leaf (created now if it does not exist yet)
+		let sib = (l - 1) ^ 1;
+		while pmmr::n_leaves(self.bk.size) <= sib.max(if mode == 2 { l + 1 } else { 0 }) {
+			self.push();
+		}
+		self.prune(leaf(sib));
+		if mode == 2 && l % 2 == 0 {
+			// the re-created first leaf after the boundary stays unspent; its sibling goes
+			self.prune(leaf(l + 1));
+		}
+		for _ in 0..(1 + l % 2) {
+			self.push();
+		}
+		self.observe(false, false);
+		self.sync();
+		self.observe(true, true);
+		self.plain_unit(1, &[], true);
+		// second compaction, at the head: every spend so far is outside the horizon now
+		let head = self.bk.chain.len() - 1;
+		self.compact_at(head);
+		self.observe(true, true);
+		self.observe_prune_file();
+		self.reopen();
+		self.observe(true, true);
+		self.observe_prune_file();
+		// now the leaf is spent for good: this time the pair may be rolled up
+		self.plain_unit(1, &[last], true);
+		let head = self.bk.chain.len() - 1;
+		self.compact_at(head);
+		self.observe(true, true);
+		self.observe_prune_file();
+		self.reopen();
+		self.observe(true, true);
+		self.plain_unit(1, &[], true);
+		self.backend = None;
+	}
+
+	fn cutoff_family(&mut self, max_l: u64) {
+		for l in 1..=max_l {
+			for mode in 0..3 {
+				for sib_first in [false, true] {
+					if sib_first && l % 2 == 1 {
+						// the sibling of the last leaf of an odd boundary does not exist yet
+						continue;
+					}
+					for stepwise in [false, true] {
+						self.cutoff_history(l, mode, sib_first, stepwise);
+					}
+				}
+			}
+		}
+	}
+
+
+	// ---- bulk batches: large un-synced appends after a rewind, rolled back -------------------
+
+	/// bytes of every file of the backend directory
+	fn dir_files(&self) -> BTreeMap<String, Vec<u8>> {
+		let mut m = BTreeMap::new();
+		for e in std::fs::read_dir(&self.dir).unwrap() {
+			let e = e.unwrap();
+			if e.path().is_file() {
+				m.insert(e.file_name().to_string_lossy().to_string(), std::fs::read(e.path()).unwrap());
+			}
+		}
+		m
+	}
+
+	/// everything the in-memory view answers at the current size: root, sizes, leaf set, data and
+	/// hash of every leaf, `get_from_file` of every position
+	fn view(&mut self) -> Vec<String> {
+		let size = self.bk.size;
+		let be = self.backend.as_mut().unwrap();
+		let mut v = vec![
+			format!("unpruned_size={}", be.unpruned_size()),
+			format!("hash_size={}", be.hash_size()),
+			format!("data_size={}", be.data_size()),
+		];
+		let pmmr: PMMR<'_, T, _> = PMMR::at(be, size);
+		v.push(format!("root={}", root_str(pmmr.root())));
+		v.push(format!("leaves={}", hex(blake(nat_list(&pmmr.leaf_pos_iter().collect::<Vec<_>>()).as_bytes()).as_bytes())));
+		let mut cat: Vec<u8> = vec![];
+		for p in 0..size {
+			cat.extend_from_slice(&p.to_be_bytes());
+			match pmmr.get_from_file(p) {
+				Some(h) => cat.extend_from_slice(h.as_bytes()),
+				None => cat.push(0),
+			}
+			if pmmr::is_leaf(p) {
+				match pmmr.get_data(p) {
+					Some(d) => cat.extend_from_slice(&d.ser()),
+					None => cat.push(1),
+				}
+				match pmmr.get_hash(p) {
+					Some(h) => cat.extend_from_slice(h.as_bytes()),
+					None => cat.push(2),
+				}
+			}
+		}
+		v.push(format!("reads={}", hex(blake(&cat).as_bytes())));
+		v
+	}
+
+	/// the files on disk as the driver's model sees them: hash file, data file, size file
+	fn disk_line(&mut self) {
+		let f = self.dir_files();
+		let part = |name: &str| match f.get(name) {
+			Some(b) => format!("{} {}", b.len(), hex(blake(b).as_bytes())),
+			None => "0 -".to_string(),
+		};
+		let tag = self.out.lines;
+		self.out.line(
+			&format!("store disk @{}", tag),
+			&format!("{} {} {}", part("pmmr_hash.bin"), part("pmmr_data.bin"), part("pmmr_size.bin")),
+		);
+	}
+
+	fn compare_files(&mut self, before: &BTreeMap<String, Vec<u8>>, what: &str) {
+		self.st.bulk_file_compares += 1;
+		let now = self.dir_files();
+		let names: BTreeSet<&String> = before.keys().chain(now.keys()).collect();
+		let mut msgs = vec![];
+		for n in names {
+			match (before.get(n), now.get(n)) {
+				(Some(a), Some(b)) if a == b => {}
+				(Some(a), Some(b)) => {
+					let d = a.iter().zip(b.iter()).position(|(x, y)| x != y).unwrap_or(a.len().min(b.len()));
+					msgs.push(format!("{}: {} -> {} bytes, first difference at byte {}", n, a.len(), b.len(), d));
+				}
+				(Some(a), None) => msgs.push(format!("{}: {} bytes -> file gone", n, a.len())),
+				(None, Some(b)) => msgs.push(format!("{}: new file of {} bytes", n, b.len())),
+				(None, None) => {}
+			}
+		}
+		if !msgs.is_empty() {
+			self.oracle_fail(format!("file changed by {}: {}", what, msgs.join(", ")));
+		}
+	}
+
+	/// One unit of work with a large un-synced batch: optional rewind to boundary `rewind_to`,
+	/// then appends until the un-synced buffer holds at least `target` bytes (hash file buffer:
+	/// 32-byte hashes, for the 8-byte kind; data file buffer for the 683-byte and the
+	/// variable-size kind, the latter with its size file), the files on disk compared with their state
+	/// before the unit at four points inside the batch (nothing is written before `sync`), then
+	/// commit, or discard and compare files and in-memory view with the state before the unit.
+	fn bulk_batch(&mut self, target: u64, rewind_to: Option<usize>, commit: bool, spend_some: bool) {
+		let saved = self.bk.clone();
+		let files0 = self.dir_files();
+		let view0 = self.view();
+		self.disk_line();
+		self.st.bulk_batches += 1;
+		if let Some(j) = rewind_to {
+			self.rewind_unit_start(j, false);
+			self.compare_files(&files0, "a rewind (nothing synced yet)");
+		}
+		let (mut hb, mut db, mut k) = (0u64, 0u64, 0u64);
+		let mut next_cmp = target / 4;
+		loop {
+			let done = match T::NAME {
+				// the 8-byte kind fills the hash file buffer, the others the data file buffer
+				"fixed" => hb >= target,
+				_ => db >= target,
+			};
+			if done {
+				break;
+			}
+			let e = T::gen_big(self.rng);
+			let size0 = self.bk.size;
+			db += e.ser().len() as u64;
+			self.push_elem(e, false);
+			hb += 32 * (self.bk.size - size0);
+			k += 1;
+			if spend_some && k % 97 == 5 {
+				// removals inside the batch: an old leaf (re-added by the rewind if there is one) and a new one
+				let old = self.readded.first().cloned().or_else(|| self.bk.unspent.iter().next().cloned());
+				if let Some(p) = old {
+					self.prune(p);
+				}
+				let p = pmmr::insertion_to_pmmr_index(pmmr::n_leaves(self.bk.size) - 2);
+				self.prune(p);
+			}
+			if hb.max(db) >= next_cmp {
+				next_cmp += target / 4;
+				self.compare_files(&files0, "an append before any sync (mid-batch)");
+			}
+		}
+		self.st.bulk_max_hash_buf = self.st.bulk_max_hash_buf.max(hb);
+		self.st.bulk_max_data_buf = self.st.bulk_max_data_buf.max(db);
+		self.compare_files(&files0, "a batch of appends before any sync");
+		self.disk_line();
+		// the uncommitted state answers like the reference
+		self.observe(false, false);
+		if commit {
+			self.sync();
+			self.observe(true, false);
+			self.disk_line();
+		} else {
+			self.st.bulk_discarded += 1;
+			self.discard(saved);
+			self.compare_files(&files0, "a discarded batch");
+			let view1 = self.view();
+			if view1 != view0 {
+				let d: Vec<String> = view0.iter().zip(view1.iter()).filter(|(a, b)| a != b).map(|(a, b)| format!("{} -> {}", a, b)).collect();
+				self.oracle_fail(format!("in-memory view changed by a discarded batch: {}", d.join(", ")));
+			}
+			self.observe(true, false);
+			self.disk_line();
+		}
+	}
+
+	/// `target` bytes per batch.  Base: three small blocks with spends, optionally compacted (then
+	/// the rewind positions are shifted by the prune list).  (1) rewind one block + big batch,
+	/// discarded - the files on disk are still small; (2) big batch, committed - the files are
+	/// large now; (3) rewind to an early boundary (a truncation of nearly the whole file is
+	/// pending) + big batch, discarded; (4) reopen: files and view unchanged; (5) rewind one block
+	/// + big batch with removals, discarded; (6) rewind to the early boundary + big batch,
+	/// committed (the truncation really happens), reopen.
+	fn bulk_history(&mut self, target: u64, with_compact: bool) {
+		let leaf = |i: u64| pmmr::insertion_to_pmmr_index(i);
+		self.fresh();
+		self.plain_unit(5, &[], true);
+		self.plain_unit(4, &[leaf(0), leaf(1), leaf(4)], true);
+		self.plain_unit(3, &[leaf(6)], true);
+		self.plain_unit(2, &[], true);
+		if with_compact {
+			self.compact_at(2);
+			self.observe(true, true);
+			self.observe_prune_file();
+		}
+		let early = if with_compact { 2 } else { 1 };
+		let n = self.bk.chain.len();
+		self.bulk_batch(target, Some(n - 2), false, false);
+		self.bulk_batch(target, None, true, false);
+		self.bulk_batch(target, Some(early), false, false);
+		let files = self.dir_files();
+		let view = self.view();
+		self.reopen();
+		self.compare_files(&files, "drop + reopen");
+		if self.view() != view {
+			self.oracle_fail("in-memory view changed by drop + reopen".into());
+		}
+		self.observe(true, false);
+		let n = self.bk.chain.len();
+		self.bulk_batch(target / 2, Some(n - 2), false, true);
+		self.bulk_batch(target, Some(early), true, true);
+		self.reopen();
+		self.observe(true, false);
+		self.disk_line();
+		self.plain_unit(2, &[], true);
+		self.backend = None;
+	}
+
 	fn history(&mut self, units: u64, max_leaves: u64) {
 		self.fresh();
 		// some histories compact often (short rewinds), some rarely (deep rewinds possible)
@@ -1236,28 +1893,37 @@ fn print_kind_stats(out: &mut Out, name: &str, st: &Stats) {
 	));
 }
 
+fn new_run<'a, T: Kind>(out: &'a mut Out, rng: &'a mut Rng, st: &'a mut Stats, dir: PathBuf) -> Run<'a, T> {
+	Run {
+		out,
+		rng,
+		st,
+		dir,
+		backend: None,
+		bk: Book {
+			size: 0,
+			elems: vec![],
+			unspent: BTreeSet::new(),
+			chain: vec![],
+			min_idx: 0,
+			refb: VecBackend::new(),
+		},
+		readded: vec![],
+		compacted_once: false,
+		empty_data_pending: false,
+		hist: vec![],
+		fails_in_history: 0,
+		protected_once: BTreeSet::new(),
+		readded_protected: BTreeSet::new(),
+	}
+}
+
 fn run_kind<T: Kind>(out: &mut Out, rng: &mut Rng, histories: u64, units: u64, max_leaves: u64) {
 	let work = std::env::var("VERIF_WORK").expect("VERIF_WORK not set");
 	let dir = PathBuf::from(work).join(format!("store_{}", T::NAME));
 	let mut st = Stats::default();
 	{
-		let mut run: Run<'_, T> = Run {
-			out,
-			rng,
-			st: &mut st,
-			dir,
-			backend: None,
-			bk: Book {
-				size: 0,
-				elems: vec![],
-				unspent: BTreeSet::new(),
-				chain: vec![],
-				min_idx: 0,
-			},
-			readded: vec![],
-			compacted_once: false,
-			empty_data_pending: false,
-		};
+		let mut run: Run<'_, T> = new_run(out, rng, &mut st, dir);
 		run.scripted();
 		run.unit_kinds(if tier_thorough() { 3 } else { 2 });
 		for _ in 0..histories {
@@ -1266,6 +1932,56 @@ fn run_kind<T: Kind>(out: &mut Out, rng: &mut Rng, histories: u64, units: u64, m
 	}
 	print_stats(out, T::NAME, &st);
 	print_kind_stats(out, T::NAME, &st);
+	print_deep_stats(out, T::NAME, &st);
+}
+
+fn print_deep_stats(out: &mut Out, name: &str, st: &Stats) {
+	out.raw(&format!(
+		"#STAT [{}] deep oracle (every unspent leaf: data, hash, proof verified against the reference root, ancestors and path siblings in the hash file; no prune-list entry over a leaf a rewind can bring back): evaluations={} proofs built and verified={} protected leaves checked against the prune list={}; compactions whose cutoff position is a leaf spent inside the horizon={}; rewinds that un-spent a leaf a compaction had protected={}; spends of the sibling of such a leaf={}",
+		name,
+		st.deep_evals,
+		st.deep_proofs,
+		st.deep_protected,
+		st.compact_cutoff_leaf_protected,
+		st.rewinds_unspend_protected,
+		st.sibling_of_readded_spent
+	));
+}
+
+/// `store cutoff`: the deterministic family around the compaction cutoff, all boundary leaf counts
+/// `1..=max_l`, both element kinds
+fn run_cutoff<T: Kind>(out: &mut Out, rng: &mut Rng, max_l: u64) {
+	let work = std::env::var("VERIF_WORK").expect("VERIF_WORK not set");
+	let dir = PathBuf::from(work).join(format!("cutoff_{}", T::NAME));
+	let mut st = Stats::default();
+	{
+		let mut run: Run<'_, T> = new_run(out, rng, &mut st, dir);
+		run.cutoff_family(max_l);
+	}
+	print_stats(out, &format!("cutoff-{}", T::NAME), &st);
+	out.raw(&format!(
+		"#STAT [cutoff-{}] cutoff family: histories={} boundary leaf counts 1..={} (cutoff position is a leaf: {} histories, a parent: {}); each: spend of the boundary's last leaf by a later block, check_compact at that boundary with the spend in rewind_rm_pos, rewind to before the spend (single step / block by block), sibling spent, check_compact at the head, reopen, final spend + compaction + reopen",
+		T::NAME, st.cutoff_histories, max_l, st.cutoff_boundary_on_leaf, st.cutoff_boundary_on_parent
+	));
+	print_deep_stats(out, &format!("cutoff-{}", T::NAME), &st);
+}
+
+/// `store bulk`: large un-synced batches after a rewind, rolled back
+fn run_bulk<T: Kind>(out: &mut Out, rng: &mut Rng, target: u64) {
+	let work = std::env::var("VERIF_WORK").expect("VERIF_WORK not set");
+	let dir = PathBuf::from(work).join(format!("bulk_{}", T::NAME));
+	let mut st = Stats::default();
+	{
+		let mut run: Run<'_, T> = new_run(out, rng, &mut st, dir);
+		run.bulk_history(target, false);
+		run.bulk_history(target, true);
+	}
+	print_stats(out, &format!("bulk-{}", T::NAME), &st);
+	out.raw(&format!(
+		"#STAT [bulk-{}] bulk batches={} (discarded {}) target {} bytes per batch; largest un-synced hash buffer {} bytes, data buffer {} bytes; byte-for-byte comparisons of all files of the directory: {}",
+		T::NAME, st.bulk_batches, st.bulk_discarded, target, st.bulk_max_hash_buf, st.bulk_max_data_buf, st.bulk_file_compares
+	));
+	print_deep_stats(out, &format!("bulk-{}", T::NAME), &st);
 }
 
 /// Out-of-protocol stream (model tie only, no reference oracle): rewinds to any earlier committed
@@ -1485,6 +2201,17 @@ fn main() {
 	}
 	if mode == "var" || mode == "all" {
 		run_kind::<VarElem>(&mut out, &mut rng, histories, units, max_leaves * 2 / 3);
+	}
+	if mode == "cutoff" || mode == "all" {
+		let max_l = if thorough { 40 } else { 20 };
+		run_cutoff::<Elem>(&mut out, &mut rng, max_l);
+		run_cutoff::<VarElem>(&mut out, &mut rng, max_l);
+	}
+	if mode == "bulk" || mode == "all" {
+		let target: u64 = if thorough { 1024 * 1024 } else { 64 * 1024 };
+		run_bulk::<Elem>(&mut out, &mut rng, target);
+		run_bulk::<RpElem>(&mut out, &mut rng, target);
+		run_bulk::<VarElem>(&mut out, &mut rng, target);
 	}
 	if mode == "rough" || mode == "all" {
 		let (h, n) = if thorough { (20, 600) } else { (6, 400) };
